@@ -17,7 +17,8 @@ def check(tier, seed):
     from .implicit_props import specs_direct
     t = 60000 if tier == "thorough" else 10000
     specs += specs_projection(tier) + [("contracts.linalg_projector", "unit_projector", {"variant": v, "timeout_ms": t}) for v in ("left-none", "left-same", "left-other")]
-    specs += specs_direct(tier)
+    from .format_props import specs_head
+    specs += specs_direct(tier) + specs_head(tier)
     d.add_units(fold_canaries(run_units(specs)))
     d.add_lean(LEAN + ["PV.Direct.greens_solves", "PV.Direct.constrained_injective", "PV.Direct.matrix_greens_solves", "PV.Direct.matrix_constrained_injective", "PV.natural_nh"] + ["PV.Inst.filt", "PV.Inst.blocks", "PV.Inst.unperturbed", "PV.Inst.gapped", "PV.Inst.trivNonHermEqs",
                        "PV.Model.filtered", "PV.Model.blocks", "PV.Model.liftNH", "PV.MatrixModel.coeffUnperturbedNH", "PV.MatrixModel.nh_theorems"])
